@@ -192,15 +192,20 @@ func c17Decoder(dec string) dials.Decoder {
 
 // C17Op is one file operation.
 type C17Op struct {
-	Mech    string `json:"mech"`              // inplace | rename | swap | delrec
+	Mech    string `json:"mech"`              // inplace | rename | delrec | swap (k8s layout) | retarget (link layout)
 	Content string `json:"content"`           // new | same | bad | restore (bytes of the last valid content) | revert (bytes of the valid content before the last one)
 	Doc     C17Doc `json:"doc"`               // when content == new
 	Bad     int    `json:"bad,omitempty"`     // malformed template, when content == bad
 	GapMS   int    `json:"gap_ms,omitempty"`  // delrec: pause between delete and recreate
-	Cleanup bool   `json:"cleanup,omitempty"` // swap: remove the previous timestamped directory afterwards (as the Kubernetes AtomicWriter does)
+	Cleanup bool   `json:"cleanup,omitempty"` // swap: remove the previous timestamped directory afterwards (as the Kubernetes AtomicWriter does); retarget: remove the previous target
+	Sub     bool   `json:"sub,omitempty"`     // retarget: the new target lives in a new subdirectory (otherwise next to the link)
 	Settle  bool   `json:"settle,omitempty"`  // content == new only: wait until the view shows this document before going on
 	PauseMS int    `json:"pause_ms"`          // pause after this operation, before the next one
 }
+
+// moves: the operation makes the watched path resolve to another file in
+// (possibly) another directory.
+func (o C17Op) moves() bool { return o.Mech == "swap" || o.Mech == "retarget" }
 
 // kind is the operation class of the property statement.
 func (o C17Op) kind() string {
@@ -218,8 +223,8 @@ func (o C17Op) kind() string {
 // C17Setup is the part shared by all three checks.
 type C17Setup struct {
 	Decoder string `json:"decoder"` // json | yaml
-	Layout  string `json:"layout"`  // direct | k8s
-	Link    string `json:"link"`    // k8s: name of the directory symlink ("..data" as Kubernetes names it, "..dir" as dials' own test names it)
+	Layout  string `json:"layout"`  // direct | k8s | link (the watched path is a plain symlink to the regular file)
+	Link    string `json:"link"`    // k8s: name of the directory symlink ("..data" as Kubernetes names it, "..dir" as dials' own test names it); link: where the first target lives, "same" directory or "sub" directory
 	Initial C17Doc `json:"initial"`
 }
 
@@ -258,6 +263,10 @@ func (s C17Setup) validate() error {
 		if s.Link != "..data" && s.Link != "..dir" {
 			return fmt.Errorf("link %q", s.Link)
 		}
+	case "link":
+		if s.Link != "same" && s.Link != "sub" {
+			return fmt.Errorf("link %q", s.Link)
+		}
 	default:
 		return fmt.Errorf("layout %q", s.Layout)
 	}
@@ -270,7 +279,11 @@ func c17ValidOps(s C17Setup, ops []C17Op, counters map[int]bool, extraPause map[
 		case "inplace", "rename", "delrec":
 		case "swap":
 			if s.Layout != "k8s" {
-				return fmt.Errorf("op %d: swap in a direct layout", i)
+				return fmt.Errorf("op %d: swap outside the k8s layout", i)
+			}
+		case "retarget":
+			if s.Layout != "link" {
+				return fmt.Errorf("op %d: retarget outside the link layout", i)
 			}
 		default:
 			return fmt.Errorf("op %d: mech %q", i, o.Mech)
@@ -326,11 +339,14 @@ func genC17Doc(t *rapid.T, counter int) C17Doc {
 func genC17Setup(t *rapid.T) C17Setup {
 	s := C17Setup{
 		Decoder: rapid.SampledFrom([]string{"json", "yaml"}).Draw(t, "decoder"),
-		Layout:  rapid.SampledFrom([]string{"direct", "k8s"}).Draw(t, "layout"),
+		Layout:  rapid.SampledFrom([]string{"direct", "k8s", "k8s", "link"}).Draw(t, "layout"),
 		Initial: genC17Doc(t, 1),
 	}
-	if s.Layout == "k8s" {
+	switch s.Layout {
+	case "k8s":
 		s.Link = rapid.SampledFrom([]string{"..data", "..dir"}).Draw(t, "link")
+	case "link":
+		s.Link = rapid.SampledFrom([]string{"same", "sub"}).Draw(t, "link")
 	}
 	return s
 }
@@ -345,6 +361,10 @@ func genC17Mech(t *rapid.T, layout string, atomicOnly bool) string {
 		return rapid.SampledFrom([]string{"swap", "swap", "rename"}).Draw(t, "mech")
 	case layout == "k8s":
 		return rapid.SampledFrom([]string{"swap", "swap", "swap", "inplace", "rename", "delrec"}).Draw(t, "mech")
+	case layout == "link" && atomicOnly:
+		return rapid.SampledFrom([]string{"retarget", "retarget", "rename"}).Draw(t, "mech")
+	case layout == "link":
+		return rapid.SampledFrom([]string{"retarget", "retarget", "retarget", "inplace", "rename", "delrec"}).Draw(t, "mech")
 	case atomicOnly:
 		return "rename"
 	}
@@ -379,8 +399,11 @@ func genC17Op(t *rapid.T, s C17Setup, counter int, content string, atomicOnly, n
 	if o.Mech == "delrec" {
 		o.GapMS = genC17Pause(t)
 	}
-	if o.Mech == "swap" {
+	if o.moves() {
 		o.Cleanup = rapid.Bool().Draw(t, "cleanup")
+	}
+	if o.Mech == "retarget" {
+		o.Sub = rapid.Bool().Draw(t, "sub")
 	}
 	return o
 }
@@ -388,6 +411,7 @@ func genC17Op(t *rapid.T, s C17Setup, counter int, content string, atomicOnly, n
 var (
 	c17KnownLinkName  = sync.OnceValue(func() bool { return vrt.IsKnown("C17", "k8s-link-name") })
 	c17KnownSwapTouch = sync.OnceValue(func() bool { return vrt.IsKnown("C17", "k8s-swap-then-touch") })
+	c17KnownDirWatch  = sync.OnceValue(func() bool { return vrt.IsKnown("C17", "link-dir-watch-removed") })
 )
 
 // c17AvoidKnown steers generated histories away from listed (unrepaired)
@@ -395,21 +419,31 @@ var (
 // deadline for every known lost update. It changes nothing when the findings
 // are not listed; a known lost update that still happens is matched by key.
 func c17AvoidKnown(s C17Setup, ops []*C17Op) {
+	move := map[string]string{"k8s": "swap", "link": "retarget"}[s.Layout]
+	inSub := s.Link == "sub"
 	for i, o := range ops {
-		if o.Mech != "swap" {
+		if !o.moves() {
 			continue
 		}
-		if s.Link != "..dir" && c17KnownLinkName() {
+		if o.Mech == "retarget" {
+			if !inSub && o.Sub && c17KnownDirWatch() {
+				// a target that leaves the link's own directory takes the
+				// watch on that directory with it
+				o.Sub = false
+			}
+			inSub = o.Sub
+		}
+		if s.Layout == "k8s" && s.Link != "..dir" && c17KnownLinkName() {
 			// noticed only through the removal of the old directory
 			o.Cleanup = true
 		}
-		if i+1 < len(ops) && ops[i+1].Mech != "swap" && c17KnownSwapTouch() {
+		if i+1 < len(ops) && !ops[i+1].moves() && c17KnownSwapTouch() {
 			// causal barrier instead of a pause: the watch on the new
 			// directory is in place before the new value is reported
 			if o.Content == "new" {
 				o.Settle = true
 			} else {
-				ops[i+1].Mech, ops[i+1].GapMS = "swap", 0
+				ops[i+1].Mech, ops[i+1].GapMS = move, 0
 			}
 		}
 	}
@@ -526,6 +560,7 @@ type c17World struct {
 	real    string // the regular file behind it
 	tsDir   string // k8s: current timestamped directory
 	tsN     int
+	realSub bool // link: the target lives in a subdirectory
 }
 
 func c17NewWorld(s C17Setup) *c17World {
@@ -538,6 +573,20 @@ func c17NewWorld(s C17Setup) *c17World {
 	if s.Layout == "direct" {
 		w.real = w.visible
 		c17Must(os.WriteFile(w.real, b, 0o644))
+		return w
+	}
+	if s.Layout == "link" {
+		// root/cfg.json -> real-1.json   or   root/cfg.json -> d1/real.json
+		w.tsN = 1
+		rel := "real-1." + s.Decoder
+		if s.Link == "sub" {
+			c17Must(os.Mkdir(filepath.Join(root, "d1"), 0o755))
+			rel = filepath.Join("d1", "real."+s.Decoder)
+			w.realSub = true
+		}
+		w.real = filepath.Join(root, rel)
+		c17Must(os.WriteFile(w.real, b, 0o644))
+		c17Must(os.Symlink(rel, w.visible))
 		return w
 	}
 	// Kubernetes AtomicWriter layout:
@@ -591,6 +640,27 @@ func (w *c17World) apply(o C17Op) (transientEmpty bool) {
 		w.tsDir, w.real = dir, real
 		if o.Cleanup {
 			c17Must(os.RemoveAll(old))
+		}
+	case "retarget":
+		w.tsN++
+		rel := fmt.Sprintf("real-%d.%s", w.tsN, w.s.Decoder)
+		if o.Sub {
+			d := fmt.Sprintf("d%d", w.tsN)
+			c17Must(os.Mkdir(filepath.Join(w.root, d), 0o755))
+			rel = filepath.Join(d, "real."+w.s.Decoder)
+		}
+		real := filepath.Join(w.root, rel)
+		c17Must(os.WriteFile(real, b, 0o644))
+		tmpLink := filepath.Join(w.root, ".cfg-link-tmp")
+		c17Must(os.Symlink(rel, tmpLink))
+		c17Must(os.Rename(tmpLink, w.visible))
+		old, oldSub := w.real, w.realSub
+		w.real, w.realSub = real, o.Sub
+		if o.Cleanup {
+			c17Must(os.Remove(old))
+			if oldSub {
+				c17Must(os.Remove(filepath.Dir(old)))
+			}
 		}
 	}
 	return transientEmpty
@@ -1005,20 +1075,26 @@ func (r *c17Run) awaitIdleView(want c17Config, ops []C17Op) *vrt.Verdict {
 }
 
 // classify gives a root-cause key for a lost update when the history allows
-// one (heuristic; the direct layout never matches):
+// one (heuristic; the direct layout never matches; swap-then-touch also covers
+// a retarget in the link layout):
 //
 //   - k8s-link-name: the library re-reads on events named <dir>/..dir only, so
 //     the swap of a link with another name (Kubernetes: ..data) is noticed
 //     only through the removal of the previously watched directory. Chosen
 //     when the link is not "..dir" and a swap is among the operations the view
 //     never caught up with.
+//   - link-dir-watch-removed (link layout): when the target moves from the
+//     link's own directory to another one, the watch on the "old resolved
+//     directory" that is removed is the watch on the link's directory itself;
+//     later retargets of the link are never noticed. Chosen when such a move
+//     is followed by another retarget.
 //   - k8s-swap-then-touch: the watch on the new timestamped directory is added
 //     after the file has been read (and not at all while the file is missing),
 //     so an in-place rewrite / rename-over / delete+recreate right after a
 //     swap can go unnoticed. Chosen when some swap is directly followed by
 //     another kind of operation without a settle step in between.
 func (r *c17Run) classify(ops []C17Op) string {
-	if r.w.s.Layout != "k8s" {
+	if r.w.s.Layout == "direct" {
 		return ""
 	}
 	seen := -1 // index of the operation whose document the view shows
@@ -1028,15 +1104,30 @@ func (r *c17Run) classify(ops []C17Op) string {
 			seen = i
 		}
 	}
-	if r.w.s.Link != "..dir" {
+	if r.w.s.Layout == "k8s" && r.w.s.Link != "..dir" {
 		for _, o := range ops[seen+1:] {
 			if o.Mech == "swap" {
 				return "k8s-link-name"
 			}
 		}
 	}
+	if r.w.s.Layout == "link" {
+		inSub, left := r.w.s.Link == "sub", false
+		for _, o := range ops {
+			if o.Mech != "retarget" {
+				continue
+			}
+			if left {
+				return "link-dir-watch-removed"
+			}
+			if !inSub && o.Sub {
+				left = true
+			}
+			inSub = o.Sub
+		}
+	}
 	for i := 0; i+1 < len(ops); i++ {
-		if ops[i].Mech == "swap" && ops[i+1].Mech != "swap" && !ops[i].Settle {
+		if ops[i].moves() && !ops[i+1].moves() && !ops[i].Settle {
 			return "k8s-swap-then-touch"
 		}
 	}
@@ -1152,7 +1243,7 @@ func c17OpLabels(s C17Setup, ops []C17Op) (bool, []string) {
 	kinds := map[string]bool{}
 	zero := false
 	labels := []string{"decoder=" + s.Decoder, "layout=" + s.Layout}
-	if s.Layout == "k8s" {
+	if s.Layout != "direct" {
 		labels = append(labels, "link="+s.Link)
 	}
 	for i, o := range ops {
@@ -1350,7 +1441,8 @@ func runC17Converge(c C17Case) vrt.Verdict {
 func TestC17Converge(t *testing.T) {
 	vrt.Check(t, vrt.Prop[C17Case]{
 		ID: "C17", Name: "converge",
-		Rule: "a real temp directory holds a JSON or YAML config file, direct or in the Kubernetes AtomicWriter layout (visible symlink -> <link>/file, <link> -> ..ts-N, link named ..data or ..dir); " +
+		Rule: "a real temp directory holds a JSON or YAML config file, direct, in the Kubernetes AtomicWriter layout (visible symlink -> <link>/file, <link> -> ..ts-N, link named ..data or ..dir) " +
+			"or behind a plain symlink (target next to the link or in a subdirectory; retarget = new target file, new symlink renamed over the visible one); " +
 			"a real file.WatchingSource (no poll interval) feeds dials.Config; 1..12 operations {in-place truncate+write, temp+rename-over, ..ts-N/<link> swap with or without removal of the old directory, delete+recreate} " +
 			"each writing new valid content (unique counter), identical bytes, malformed content, the last valid content again (restore) or the valid content before that (revert), with pauses of 0/1/30 ms from the case " +
 			"(a new-content operation may carry a settle flag: wait for the view to show it before going on); final content valid, identical to the previous, restored, reverted or invalid. " +
@@ -1364,6 +1456,7 @@ func TestC17Converge(t *testing.T) {
 			"an empty YAML file is a valid empty document: a truncating operation in a trailing invalid stretch may install the bare defaults (accepted and labelled yaml-empty-installed)",
 			"callbacks are not dropped for histories this short (the callback channel holds 64 events)",
 			"the Kubernetes swap is modelled as mkdir ..ts-N, write file, symlink <link>_tmp, rename over <link>, optionally RemoveAll of the previous directory; operations on the content act on the regular file behind the symlinks",
+			"the plain-symlink layout is an extension of the property's list (an atomic rename-over of the watched path itself)",
 			"inotify is available; hitting the per-user inotify instance limit discards the case",
 		},
 		Gen: genC17Converge, Run: runC17Converge,
@@ -1409,7 +1502,7 @@ func genC17Ident(t *rapid.T) C17IdentCase {
 	return c
 }
 
-func c17Atomic(o C17Op) bool { return o.Mech == "rename" || o.Mech == "swap" }
+func c17Atomic(o C17Op) bool { return o.Mech == "rename" || o.moves() }
 
 func c17SerialNum(s dials.CfgSerial[c17Config]) uint64 {
 	return reflect.ValueOf(s).Field(0).Uint()
